@@ -65,6 +65,19 @@ def type_is_const(qt):
     return qt.startswith("const ") or qt.endswith(" const") or " const[" in qt or qt.startswith("const[")
 
 
+def _reads_call_state(node):
+    """does the subtree (the initialiser of a VarDecl) read a function parameter or `this`?"""
+    stack = [c for c in (node.get("inner") or []) if isinstance(c, dict)]
+    while stack:
+        n = stack.pop()
+        if n.get("kind") == "CXXThisExpr":
+            return True
+        if n.get("kind") == "DeclRefExpr" and (n.get("referencedDecl") or {}).get("kind") == "ParmVarDecl":
+            return True
+        stack.extend(c for c in (n.get("inner") or []) if isinstance(c, dict))
+    return False
+
+
 def walk(node, scope, in_func, file_state, out, writers, func_name, parent=None, uses=None):
     """scope: list of names; in_func: inside a function body; file_state: [current file];
     uses: {decl id: True if every reference seen so far is an lvalue-to-rvalue load}"""
@@ -94,8 +107,14 @@ def walk(node, scope, in_func, file_state, out, writers, func_name, parent=None,
             dq = t.get("desugaredQualType", qt)
             const = bool(node.get("constexpr")) or type_is_const(qt) or type_is_const(dq)
             storage = "thread_local" if tls is not None else ("local-static" if in_func else ("static-member" if scope and scope[-1][1] == "class" else "namespace-scope"))
+            # a function-local static whose initialiser reads a parameter (or `this`) is fixed by whichever call comes first: it is
+            # shared state written once at run time with a caller-dependent value, however `const` its type is
+            first_call = bool(in_func and tls is None and _reads_call_state(node))
+            if first_call:
+                const = False
+                qt = qt + " (initialised from the first caller's arguments)"
             out.append(dict(id=node.get("id"), name=name, scope="::".join(s[0] for s in scope if s[0]), type=qt, isConst=const, storage=storage,
-                            func=func_name or "", file=os.path.basename(file_state[0] or "?")))
+                            func=func_name or "", file=os.path.basename(file_state[0] or "?"), firstCall=first_call))
     if kind == "DeclRefExpr" and (node.get("referencedDecl") or {}).get("kind") == "VarDecl":
         rid = node["referencedDecl"].get("id")
         is_load = bool(parent) and parent.get("kind") == "ImplicitCastExpr" and parent.get("castKind") == "LValueToRValue"
@@ -171,7 +190,7 @@ def _analyse_tu(args):
     for top in clang_json(os.path.join(src, tu), inc, src):
         walk(top, [], False, [None], out, w, None, None, uses)
     for rec in out:
-        rec["onlyRead"] = uses.get(rec.pop("id"), True)
+        rec["onlyRead"] = uses.get(rec.pop("id"), True) and not rec.get("firstCall", False)
     with tempfile.TemporaryDirectory(prefix="globals") as td:
         obj = os.path.join(td, tu + ".o")
         r = subprocess.run(["g++", "-std=c++17", "-O1", "-c", "-w", "-I", inc, os.path.join(src, tu), "-o", obj], capture_output=True, text=True)
